@@ -7,6 +7,7 @@
 package main
 
 import (
+	"runtime/debug"
 	"bytes"
 	"encoding/json"
 	"flag"
@@ -59,7 +60,7 @@ func main() {
 	func() {
 		defer func() {
 			if r := recover(); r != nil {
-				c.Broken("check panicked: %v", r)
+				c.Broken("check panicked: %v\n%s", r, debug.Stack())
 			}
 		}()
 		f(c)
